@@ -147,6 +147,8 @@ type Evaluator struct {
 
 	scope  *scope // Current top of scope stack
 	global *scope // Global scope
+
+	verif verifState // empty unless built with the verif tag
 }
 
 // Event is a generic data structure that is passed to the
@@ -202,6 +204,9 @@ func (e *Evaluator) Eval(prog *parser.Program) error {
 }
 
 func (e *Evaluator) eval(node parser.Node) (value, error) {
+	if e.verifIntercept(node) { // no-op unless built with the verif tag
+		return e.verifEval(node)
+	}
 	if e.Stopped {
 		return nil, ErrStopped
 	}
